@@ -9,7 +9,13 @@ import random
 import sys
 from abc import ABCMeta, abstractmethod
 from contextlib import contextmanager
-from types import CodeType, FrameType
+from types import (
+    CodeType,
+    FrameType,
+    GetSetDescriptorType,
+    MemberDescriptorType,
+    MethodType,
+)
 from typing import Any, Callable, Dict, Iterator, Optional, Union, cast
 
 import opcode
@@ -118,15 +124,34 @@ def get_func_in_mro(obj: Any, code: CodeType) -> Optional[Callable[..., Any]]:
     return _has_code(cand, code)
 
 
+def _getattr_static(obj: Any, name: str) -> Any:
+    """Read obj.<name> without running any code of the traced program.
+
+    Plain getattr() would invoke __getattr__ / __getattribute__ / properties of
+    arbitrary objects of the program (every callable local of every outer frame
+    is a candidate in get_func).
+    """
+    if type(obj) is MethodType:
+        obj = obj.__func__
+    try:
+        val = inspect.getattr_static(obj, name)
+    except AttributeError:
+        return None
+    if type(val) in (GetSetDescriptorType, MemberDescriptorType):
+        # slots of builtin types, e.g. function.__code__
+        return val.__get__(obj, type(obj))
+    return val
+
+
 def _has_code(
     func: Optional[Callable[..., Any]], code: CodeType
 ) -> Optional[Callable[..., Any]]:
     while func is not None:
-        func_code = getattr(func, "__code__", None)
+        func_code = _getattr_static(func, "__code__")
         if func_code is code:
             return func
         # Attempt to find the decorated function
-        func = getattr(func, "__wrapped__", None)
+        func = _getattr_static(func, "__wrapped__")
     return None
 
 
